@@ -2164,8 +2164,14 @@ class Circuit(Unitary, StateVectorMap, Collection[Operation]):
     def batch_unfold(self, points: Sequence[CircuitPointLike]) -> None:
         """Unfold the CircuitGates at `points` into the circuit."""
         points = {(point[0], self[point].location[0]) for point in points}
+        last_cycle, shift = -1, 0
         for point in reversed(sorted(points)):
-            self.unfold(point)
+            # Unfolding one gate pushes back the others in its cycle
+            if point[0] != last_cycle:
+                last_cycle, shift = point[0], 0
+            num_cycles = self.num_cycles
+            self.unfold((point[0] + shift, point[1]))
+            shift += self.num_cycles - num_cycles
 
     def unfold_all(self) -> None:
         """Unfold all CircuitGates in the circuit."""
